@@ -180,7 +180,7 @@ def check_removed(rec, m, p_in, p, removed, one, co, op):
 
 # ------------------------------------------------------------------------------------------------
 def configs(tier):
-    ns = [1, 2, 3, 4, 6] if tier == 'quick' else [1, 2, 3, 4, 5, 6, 8, 10, 12]
+    ns = [1, 2, 3, 4, 5, 6, 8] if tier == 'quick' else [1, 2, 3, 4, 5, 6, 7, 8, 10, 12]
     out = []
     k = 0
     for n in ns:
